@@ -434,3 +434,35 @@ Proof.
   - apply REPLY. lia.
   - reflexivity.
 Qed.
+
+(* ---------- C07: begin records the receipt number of the LAST status information that carried one ---------- *)
+
+Definition receipt_of (v : value) : option N :=
+  match field_of "zvt::packets::StatusInformation" v 135 with Some (VSome (VInt rn)) => Some rn | _ => None end.
+
+Theorem begin_records_last_receipt ixa ixs : ixs <> ixa -> forall its acc,
+  (forall i v, In (i, v) its -> i <> ixa) ->
+  run_handler (h_begin ixa ixs) f_begin acc its =
+  f_begin (fold_left (fun a iv => if fst iv =? ixs then match receipt_of (snd iv) with Some rn => Some rn | None => a end else a) its acc).
+Proof.
+  intros H. induction its as [|[i v] its IH]; intros acc Hn; [reflexivity|].
+  cbn [run_handler fold_left fst snd]. unfold h_begin at 1.
+  destruct (i =? ixa) eqn:E; [exfalso; apply (Hn i v (or_introl eq_refl)); lia|].
+  assert (Hn' : forall j u, In (j, u) its -> j <> ixa) by (intros j u Hin; apply (Hn j u); right; exact Hin).
+  destruct (i =? ixs) eqn:E2; [|apply IH; exact Hn'].
+  unfold receipt_of. destruct (field_of "zvt::packets::StatusInformation" v 135) as [[| | | | |[rn| | | | | | |]| |]|]; apply IH; exact Hn'.
+Qed.
+
+(* ... and a reservation that never reported a receipt number is refused as incomplete, the map untouched (begin_effect) *)
+Theorem begin_without_receipt_is_incomplete ixa ixs : ixs <> ixa -> forall its,
+  (forall i v, In (i, v) its -> i <> ixa) -> (forall i v, In (i, v) its -> i = ixs -> receipt_of v = None) ->
+  run_handler (h_begin ixa ixs) f_begin None its = RErr EIncomplete.
+Proof.
+  intros H its Hn Hr. rewrite (begin_records_last_receipt ixa ixs H its None Hn).
+  assert (F : fold_left (fun a iv => if fst iv =? ixs then match receipt_of (snd iv) with Some rn => Some rn | None => a end else a) its None = None).
+  { induction its as [|[i v] its IH]; [reflexivity|]. cbn [fold_left fst snd].
+    destruct (i =? ixs) eqn:E.
+    - rewrite (Hr i v (or_introl eq_refl)) by lia. apply IH; intros j u Hin; [apply (Hn j u)|apply (Hr j u)]; right; exact Hin.
+    - apply IH; intros j u Hin; [apply (Hn j u)|apply (Hr j u)]; right; exact Hin. }
+  rewrite F. reflexivity.
+Qed.
